@@ -141,7 +141,6 @@ Section BucketQuantile.
   Definition hist_step (nout : nat) (idx : list (option (nat * option V))) (q : option V) (vec : list (nat * V)) : list (nat * V) :=
     flat_map (fun g => match step_buckets idx g vec with
                        | [] => []
-                       | [_] => [(g, nanv o)]
                        | bs => [(g, match q with Some qv => bucket_quantile qv bs | None => nanv o end)]
                        end) (seq 0 nout).
 End BucketQuantile.
